@@ -537,6 +537,72 @@ pub fn run_probe(kind: u8, depth: u8, hold_point: u8) -> Value {
 // exploration cannot split); it is not part of the exhaustive claim.
 // ---------------------------------------------------------------------------------------------
 
+/// A call that never returns (a waiter spinning on a flag that is never set) must end the child:
+/// after `secs` seconds the watchdog prints a RESULT line saying so and exits.
+pub fn stress_watchdog(secs: u64, what: &'static str) {
+  std::thread::spawn(move || {
+    std::thread::sleep(std::time::Duration::from_secs(secs));
+    println!("RESULT {}", json!({"stress": "hung", "problems": [format!("{}: a call did not return within {} s", what, secs)]}));
+    std::process::exit(3);
+  });
+}
+
+/// Cross-table first use (SAMPLED): for every depth, one thread makes the first use of the Layer
+/// and another one the first use of the cell-size constants of the same depth, released by a spin
+/// barrier with a small stagger (-10..10 steps of 25 ns, a function of the seed and the depth);
+/// then both tables are used again sequentially.  Exactly one construction per table and depth,
+/// every call returns, later calls obtain the same object.
+pub fn run_stress_mixed(round_seed: u64) -> Value {
+  use std::sync::atomic::{AtomicUsize, Ordering};
+  use std::sync::Arc;
+  let mut problems: Vec<String> = vec![];
+  for d in 0u8..30 {
+    let step = ((round_seed * 7 + d as u64 * 3) % 21) as i64 - 10;
+    let gate = Arc::new(AtomicUsize::new(0));
+    let mk = |kind: u8, delay_ns: u64| {
+      let g = gate.clone();
+      std::thread::spawn(move || {
+        g.fetch_add(1, Ordering::SeqCst);
+        while g.load(Ordering::SeqCst) < 2 {
+          std::hint::spin_loop();
+        }
+        let t0 = std::time::Instant::now();
+        while (t0.elapsed().as_nanos() as u64) < delay_ns {
+          std::hint::spin_loop();
+        }
+        let c = Call { kind, depth: d };
+        std::panic::catch_unwind(|| do_call(&c)).map_err(|_| "panic".to_string())
+      })
+    };
+    // kind 0 = Layer table, kind 1 = cell-size constants (direct)
+    let ta = mk(0, if step > 0 { step as u64 * 25 } else { 0 });
+    let tb = mk(1, if step < 0 { (-step) as u64 * 25 } else { 0 });
+    let ra = ta.join().unwrap_or(Err("panic".to_string()));
+    let rb = tb.join().unwrap_or(Err("panic".to_string()));
+    for (kind, r) in [(0u8, &ra), (1u8, &rb)] {
+      let c = Call { kind, depth: d };
+      let later = std::panic::catch_unwind(|| do_call(&c)).map_err(|_| "panic".to_string());
+      if !(r.is_ok() && *r == later) {
+        problems.push(format!("mixed tables, depth {}: first use of table {} gave {:?}, later call {:?}", d, kind, r, later));
+      }
+    }
+    // a third, late user of both tables (a second construction shows in the counters)
+    let tc = std::thread::spawn(move || {
+      std::panic::catch_unwind(|| (do_call(&Call { kind: 0, depth: d }), do_call(&Call { kind: 1, depth: d }), if d >= 1 { do_call(&Call { kind: 2, depth: d }) } else { 0 })).is_ok()
+    });
+    if !tc.join().unwrap_or(false) {
+      problems.push(format!("mixed tables, depth {}: a later thread panics", d));
+    }
+    for (table, name) in [(vh::TABLE_LAYER, "Layer"), (vh::TABLE_C2V, "cell-size constants")] {
+      let n = vh::new_count(table, d);
+      if n != 1 {
+        problems.push(format!("mixed tables, depth {}: {} constructed {} times", d, name, n));
+      }
+    }
+  }
+  json!({"stress": "done", "problems": problems})
+}
+
 pub fn run_stress(round_seed: u64) -> Value {
   use std::sync::{Arc, Barrier};
   let nthreads = 15usize;
